@@ -182,6 +182,19 @@ def run(ctx: Ctx) -> Result:
         cases.append((f'signature scalar s + {k_}*L', cfg, c_, P(alt) + P(pk_) + op('CHECK_SIG') + b'\x00', 'F'))
         cases.append((f'signature scalar s + {k_}*L (CHECK_SIG_STACK)', cfg, c_, P(alt) + P(ref_msg(c_, 0)) + P(pk_) + op('CHECK_SIG_STACK'), 'F'))
     cases.append(('CHECK_SIG_STACK honest (control)', cfg, c_, P(sig_) + P(ref_msg(c_, 0)) + P(pk_) + op('CHECK_SIG_STACK'), 'T'))
+    # a check's verdict is a function of (key, signature item, sigfields): the same 64 bytes rejected earlier in the same run (bare, or
+    # under another flag byte) are accepted when they come with the flag byte they were signed for
+    for _ in range(ctx.n(30, 200)):
+        cache = {f'sigfield{i}': V.rbytes(rng, rng.choice([1, 5])) for i in range(1, 9) if rng.random() < .6}
+        cache.setdefault('sigfield1', b'a'); cache.setdefault('sigfield2', b'b')
+        present = [i for i in range(1, 9) if f'sigfield{i}' in cache]
+        fl = 1 << (rng.choice(present) - 1)
+        ki = rng.randrange(len(keys.sks)); sk, pk = keys.sks[ki], keys.pks[ki]
+        s64 = sk.sign(ref_msg(cache, fl)).signature
+        f2 = fl ^ (1 << (rng.choice([i for i in present if (1 << (i - 1)) != fl]) - 1))
+        first = rng.choice([P(s64), P(s64 + bytes([f2]))])
+        script = first + P(pk) + op('CHECK_SIG') + b'\xff' + op('POP0') + P(s64 + bytes([fl])) + P(pk) + op(rng.choice(['CHECK_SIG', 'CHECK_SIG'])) + b'\xff'
+        cases.append(('the same signature bytes first rejected (bare / other flag), then checked with their own flag byte', cfg, cache, script, 'T'))
     # wrong lengths: error, never true
     sk, pk = keys.sks[0], keys.pks[0]
     sig = sk.sign(b'').signature
